@@ -57,17 +57,17 @@ def idxDel (x : Idx) (id : Nat) (ks : List (Nat × Nat)) : Idx :=
   fun i k => if i = id then x i k && !decide (k ∈ ks) else x i k
 
 /-- an index becomes dirty when one of its postings actually changes (`BTree::insert` pushes a new
-id / `BTree::remove` removes one; re-inserting a present posting or removing an absent one is a no-op) -/
-def touchAdd (x : Idx) (dirty : Nat → Bool) (id : Nat) (ks : List (Nat × Nat)) : Nat → Bool :=
-  fun ix => dirty ix || ks.any (fun k => k.1 == ix && !x id k)
+id / `BTree::remove` removes one; re-inserting a present posting or removing an absent one is a
+no-op). `dirty` lists the indexes with a pending flush. -/
+def touchAdd (x : Idx) (dirty : List Nat) (id : Nat) (ks : List (Nat × Nat)) : List Nat :=
+  dirty ++ (ks.filter (fun k => !x id k)).map (·.1)
 
-def touchDel (x : Idx) (dirty : Nat → Bool) (id : Nat) (ks : List (Nat × Nat)) : Nat → Bool :=
-  fun ix => dirty ix || ks.any (fun k => k.1 == ix && x id k)
+def touchDel (x : Idx) (dirty : List Nat) (id : Nat) (ks : List (Nat × Nat)) : List Nat :=
+  dirty ++ (ks.filter (fun k => x id k)).map (·.1)
 
 def setB (f : Nat → Bool) (i : Nat) (b : Bool) : Nat → Bool := fun j => if j = i then b else f j
 
 structure Durable where
-  nIdx : Nat
   docs : Nat → Option Doc
   ids : Nat → Bool
   metaMax : Nat
@@ -85,7 +85,7 @@ structure Volatile where
   savedVer : Nat
   wm : Nat
   idx : Idx
-  dirty : Nat → Bool
+  dirty : List Nat
   pending : List Nat
   cp : Nat
   cpSaved : Nat
@@ -107,6 +107,12 @@ structure World where
   sched : List Fault
   clk : Nat
   log : List Ev
+  /-- the handle's remembered object version (etag) of `meta.cbor` is behind the stored one: a
+  `save_extension` PUT landed but reported failure. The next conditional PUT of the metadata is
+  rejected by the backend (`Precondition`). Cleared by a reopen, which re-reads the version. -/
+  metaStale : Bool := false
+  /-- the last failure was such a rejected conditional PUT -/
+  preFail : Bool := false
 
 /-- one backend mutation attempt: `(world, reported_ok)` -/
 def World.attempt (w : World) (e : Ev) (f : Durable → Durable) : World × Bool :=
@@ -118,6 +124,16 @@ def World.attempt (w : World) (e : Ev) (f : Durable → Durable) : World × Bool
   | .unknown :: r => ({ w with D := f w.D, sched := r, log := w.log ++ [e] }, false)
   | .crash :: r => ({ w with off := true, sched := r }, false)
 
+/-- a conditional PUT whose precondition fails at the backend: the call is made (it consumes its
+scheduled outcome; a power loss still powers off) but can never land -/
+def World.reject (w : World) : World :=
+  if w.off then w else
+  match w.sched with
+  | [] => { w with preFail := true }
+  | .ok :: r => { w with sched := r, preFail := true }
+  | .crash :: r => { w with off := true, sched := r }
+  | _ :: r => { w with sched := r }
+
 /-- a sequence of dependent mutations, abandoned at the first reported failure -/
 def World.attemptAll (w : World) : List (Ev × (Durable → Durable)) → World × Bool
   | [] => (w, true)
@@ -127,10 +143,8 @@ def World.attemptAll (w : World) : List (Ev × (Durable → Durable)) → World 
 
 inductive Out
   | okId (id : Nat) | ok | okBool (b : Bool) | okDoc (d : Option Doc)
-  | errIo | errState | errNotFound | errExists | errInvalid | errNoHandle
+  | errIo | errPre | errState | errNotFound | errExists | errNoHandle
 deriving DecidableEq, Repr
-
-def validDoc (n : Nat) (d : Doc) : Bool := d.keys.all (fun k => decide (k.1 < n))
 
 def putDoc (id : Nat) (d : Doc) (D : Durable) : Durable :=
   { D with docs := fun j => if j = id then some d else D.docs j }
@@ -183,7 +197,6 @@ def addCreate (w : World) (v : Volatile) (id : Nat) (d : Doc) : World × Volatil
 
 def addOp (w : World) (v : Volatile) (d : Doc) : World × Volatile × Out :=
   if v.dead then (w, v, .errState) else
-  if !validDoc w.D.nIdx d then (w, v, .errInvalid) else
   let id := v.maxId + 1
   let v : Volatile := { v with maxId := id }
   if id ≤ v.wm then addCreate w v id d
@@ -240,7 +253,6 @@ def updateOp (w : World) (v : Volatile) (id : Nat) (p : Patch) : World × Volati
   | none => (w, v, .errNotFound)
   | some old =>
     let new := applyPatch old p
-    if !validDoc w.D.nIdx new then (w, v, .errInvalid) else
     -- `record_mutation_intent` (create-if-absent under a fresh sequence), before either side changes
     let it : Intent := { seq := w.clk, id := id, prev := some old, next := some new }
     let r := ({ w with clk := w.clk + 1 } : World).attempt (.intentPut id) (putIntent it)
@@ -285,7 +297,9 @@ structure FlushCtx where
   idxSaved : Bool
   metaStored : Bool
 
-def dirtyIxs (n : Nat) (v : Volatile) : List Nat := (List.range n).filter v.dirty
+/-- the dirty indexes in flush order (ascending, each once) -/
+def dirtyIxs (v : Volatile) : List Nat :=
+  (List.range (v.dirty.foldl max 0 + 1)).filter (fun ix => decide (ix ∈ v.dirty))
 
 /-- `Storage::store_metadata(check_point, now_ms)`: rate-limited by `last_saved`, a larger
 checkpoint always forces the write; in-memory stats published only after the PUT returned -/
@@ -303,14 +317,14 @@ def flushStep (now : Nat) (pendMeta pendIdx pendMut : Bool) (c : FlushCtx) (s : 
   match s with
   | .indexes =>
     if pendIdx then
-      let ixs := dirtyIxs c.w.D.nIdx c.v
+      let ixs := dirtyIxs c.v
       let r := c.w.attemptAll (ixs.map (fun ix => (Ev.ixc ix, commitIdx ix c.v.idx)))
-      if r.2 then { c with w := r.1, v := { c.v with dirty := fun ix => c.v.dirty ix && !decide (ix < c.w.D.nIdx) },
-                           idxSaved := !ixs.isEmpty }
+      if r.2 then { c with w := r.1, v := { c.v with dirty := [] }, idxSaved := !ixs.isEmpty }
       else { c with w := r.1, failed := true }
     else c
   | .metaPut =>
     if pendMeta then
+      if c.w.metaStale then { c with w := c.w.reject, failed := true } else
       let r := c.w.attempt .metaPut (putMeta c.v.maxId c.v.version)
       if r.2 then { c with w := r.1, v := { c.v with savedVer := max c.v.savedVer c.v.version }, metaStored := true }
       else { c with w := r.1, failed := true }
@@ -331,33 +345,48 @@ def flushStep (now : Nat) (pendMeta pendIdx pendMut : Bool) (c : FlushCtx) (s : 
 /-- `none` = the flush failed (the callers poison the handle) -/
 def flushInner (w : World) (v : Volatile) (now : Nat) : World × Volatile × Option Bool :=
   let pendMut := !v.pending.isEmpty
-  let pendIdx := !(dirtyIxs w.D.nIdx v).isEmpty
+  let pendIdx := !v.dirty.isEmpty
   let pendMeta := decide (v.savedVer < v.version)
   if !pendMeta && !pendIdx && !pendMut then (w, v, some false) else
   let c := flushOrder.foldl (flushStep now pendMeta pendIdx pendMut) ⟨w, v, false, false, false⟩
   if c.failed then (c.w, c.v, none)
   else (c.w, c.v, some (c.metaStored || c.idxSaved || pendMut))
 
+def failOut (w : World) : Out := if w.preFail then .errPre else .errIo
+
 def flushOp (w : World) (v : Volatile) (now : Nat) : World × Volatile × Out :=
   if v.dead then (w, v, .errState) else
-  let r := flushInner w v now
+  let r := flushInner { w with preFail := false } v now
   match r.2.2 with
   | some b => (r.1, r.2.1, .okBool b)
-  | none => (r.1, { r.2.1 with poisoned := r.2.1.poisoned || flushPoisonsOnError }, .errIo)
+  | none => (r.1, { r.2.1 with poisoned := r.2.1.poisoned || flushPoisonsOnError }, failOut r.1)
 
 def closeOp (w : World) (v : Volatile) (now : Nat) : World × Volatile × Out :=
   if v.poisoned then (w, v, .errState) else
   if v.closed then (w, v, .ok) else
-  let r := flushInner w v now
+  let r := flushInner { w with preFail := false } v now
   match r.2.2 with
   | some _ => (r.1, { r.2.1 with closed := true }, .ok)
-  | none => (r.1, { r.2.1 with poisoned := r.2.1.poisoned || closePoisonsOnError }, .errIo)
+  | none => (r.1, { r.2.1 with poisoned := r.2.1.poisoned || closePoisonsOnError }, failOut r.1)
+
+/-! ### save_extension (`store_metadata_unclaimed`) -/
+
+/-- bumps the version and PUTs the whole metadata object (current `max_document_id` included)
+conditionally on the remembered object version — WITHOUT advancing `last_saved_version`, so the
+next flush still persists the bitmap. A failure does not poison the handle. -/
+def saveExtOp (w : World) (v : Volatile) : World × Volatile × Out :=
+  if v.dead then (w, v, .errState) else
+  let v1 : Volatile := { v with version := v.version + 1 }
+  if w.metaStale then (({ w with preFail := false } : World).reject, v1, failOut ({ w with preFail := false } : World).reject) else
+  let unk := !w.off && (match w.sched with | .unknown :: _ => true | _ => false)
+  let r := w.attempt .metaPut (putMeta v1.maxId v1.version)
+  if r.2 then (r.1, v1, .ok) else ({ r.1 with metaStale := unk }, v1, .errIo)
 
 /-! ### open (`Collection::open`): load · replay · repair scan -/
 
 def loadV (D : Durable) : Volatile :=
   { ids := D.ids, maxId := D.metaMax, version := D.metaVer, savedVer := D.metaVer,
-    wm := max D.wm D.metaMax, idx := D.idx, dirty := fun _ => false, pending := [],
+    wm := max D.wm D.metaMax, idx := D.idx, dirty := [], pending := [],
     cp := D.cp, cpSaved := D.cpSaved, poisoned := false, closed := false }
 
 /-- first loop of `reconcile_mutation_intents`: both recorded images leave every index -/
@@ -408,7 +437,7 @@ def recoverV (D : Durable) : Volatile := scan D (replay D (loadV D))
 /-- reboot + `AndaDB::connect` + `open_or_create_collection`: power returns, the old handle is
 gone, the collection is loaded, replayed, repaired and flushed. `none` = the open failed. -/
 def reopenOp (w : World) (now : Nat) : World × Option Volatile × Out :=
-  let w : World := { w with off := false }
+  let w : World := { w with off := false, metaStale := false, preFail := false }
   let v := recoverV w.D
   let r := flushInner w v now
   match r.2.2 with
@@ -420,6 +449,7 @@ def reopenOp (w : World) (now : Nat) : World × Option Volatile × Out :=
 inductive Op
   | add (d : Doc) | update (id : Nat) (p : Patch) | remove (id : Nat)
   | flush (now : Nat) | close (now : Nat) | reopen (now : Nat)
+  | saveExt
   | arm (s : List Fault)
 deriving Repr
 
@@ -427,15 +457,15 @@ structure State where
   w : World
   h : Option Volatile
 
-def initD (nIdx : Nat) : Durable :=
-  { nIdx := nIdx, docs := fun _ => none, ids := fun _ => false, metaMax := 0, metaVer := 1, cp := 0,
+def initD : Durable :=
+  { docs := fun _ => none, ids := fun _ => false, metaMax := 0, metaVer := 1, cp := 0,
     cpSaved := 0, wm := 0, intents := [], idx := fun _ _ => false }
 
 /-- a freshly created, registered and flushed collection (`Collection::create` +
 `register_created_collection`): version 1 saved, nothing else -/
-def init (nIdx : Nat) : State :=
-  { w := { D := initD nIdx, off := false, sched := [], clk := 0, log := [] },
-    h := some (loadV (initD nIdx)) }
+def init : State :=
+  { w := { D := initD, off := false, sched := [], clk := 0, log := [] },
+    h := some (loadV initD) }
 
 def lift (s : State) (f : World → Volatile → World × Volatile × Out) : State × Out :=
   match s.h with
@@ -448,6 +478,7 @@ def step (s : State) : Op → State × Out
   | .remove id => lift s (fun w v => removeOp w v id)
   | .flush now => lift s (fun w v => flushOp w v now)
   | .close now => lift s (fun w v => closeOp w v now)
+  | .saveExt => lift s (fun w v => saveExtOp w v)
   | .reopen now => let r := reopenOp s.w now; ({ w := r.1, h := r.2.1 }, r.2.2)
   | .arm l => ({ s with w := { s.w with sched := l } }, .ok)
 
